@@ -611,6 +611,9 @@ func (h *File) Name() string { return h.name }
 
 // Read reads from the handle.
 func (h *File) Read(b []byte) (int, error) {
+	if h == nil {
+		return 0, os.ErrInvalid
+	}
 	if h.real != nil {
 		return h.real.Read(b)
 	}
@@ -654,6 +657,9 @@ func (h *File) Read(b []byte) (int, error) {
 
 // Write writes to the handle.
 func (h *File) Write(b []byte) (int, error) {
+	if h == nil {
+		return 0, os.ErrInvalid
+	}
 	if h.real != nil {
 		passthroughRO("Write", h.name)
 	}
@@ -712,6 +718,9 @@ func (h *File) Write(b []byte) (int, error) {
 
 // Seek sets the offset.
 func (h *File) Seek(offset int64, whence int) (int64, error) {
+	if h == nil {
+		return 0, os.ErrInvalid
+	}
 	if h.real != nil {
 		return h.real.Seek(offset, whence)
 	}
@@ -749,6 +758,9 @@ func (h *File) Seek(offset int64, whence int) (int64, error) {
 
 // Close closes the handle.
 func (h *File) Close() error {
+	if h == nil {
+		return os.ErrInvalid
+	}
 	if h.real != nil {
 		return h.real.Close()
 	}
@@ -771,6 +783,9 @@ func (h *File) Close() error {
 
 // Stat is fstat.
 func (h *File) Stat() (fs.FileInfo, error) {
+	if h == nil {
+		return nil, os.ErrInvalid
+	}
 	if h.real != nil {
 		return h.real.Stat()
 	}
@@ -791,6 +806,9 @@ func (h *File) Stat() (fs.FileInfo, error) {
 
 // Sync is a no-op (the crash model is process kill, not power loss).
 func (h *File) Sync() error {
+	if h == nil {
+		return os.ErrInvalid
+	}
 	if h.real != nil {
 		return h.real.Sync()
 	}
@@ -799,6 +817,9 @@ func (h *File) Sync() error {
 
 // Truncate changes the size of the file.
 func (h *File) Truncate(size int64) error {
+	if h == nil {
+		return os.ErrInvalid
+	}
 	if h.real != nil {
 		passthroughRO("Truncate", h.name)
 	}
@@ -819,6 +840,9 @@ func (h *File) Truncate(size int64) error {
 
 // ReadAt reads at an offset without moving the handle offset.
 func (h *File) ReadAt(b []byte, off int64) (int, error) {
+	if h == nil {
+		return 0, os.ErrInvalid
+	}
 	if h.real != nil {
 		return h.real.ReadAt(b, off)
 	}
